@@ -36,7 +36,7 @@ returned byte count `p` is `Token.start`'s raw material; `TEOF` iff `o` is the e
 `TNEWLINE` iff the byte is a new-line; the new state is correct and, unless at the end, strictly
 behind `o`. -/
 def TokOK (text : List UInt8) (δ : Int) (s : S) : Except Err (Kind × Loc × Nat × S) → Prop
-  | .error _ => True
+  | .error e => ErrLine text δ (off s) e
   | .ok (k, l, p, s') =>
     ∃ o, off s ≤ o ∧ p = (if k = .TEOF then o else o + 1) + 2 * s.skipped ∧
       LocRel δ l (locAt text o) ∧
@@ -80,7 +80,7 @@ theorem tokOK_plain {s : S} (h : Inv text δ s) {c : UInt8} (hc : s.chr = some c
 theorem tokOK_mono {s s1 : S} {r : Except Err (Kind × Loc × Nat × S)} (h1 : TokOK text δ s1 r)
     (hs1 : s1.skipped = 0) (hs : s.skipped = 0) (hle : off s ≤ off s1) : TokOK text δ s r := by
   cases r with
-  | error e => trivial
+  | error e => exact ErrLine.mono h1 hle
   | ok r =>
     obtain ⟨k, l, p, s'⟩ := r
     obtain ⟨o, a1, a2, a3, a4, a5, a6, a7, a8⟩ := h1
@@ -123,7 +123,11 @@ theorem tokOK_lit {s : S} (h : Inv text δ s) {c : UInt8} (hc : s.chr = some c) 
       | .error e => .error e
       | .ok r => .ok (r.fst, s.loc, s.pos, r.snd)) := by
   split
-  · trivial
+  · rename_i e heq
+    refine ErrLine.mono ?_ ho
+    cases str
+    · exact charconst_err h1 heq
+    · exact stringlit_err h1 heq
   · rename_i r heq
     obtain ⟨k, s'⟩ := r
     have : After text δ o s' ∧ (k = .TSTRINGLIT ∨ k = .TCHARCONST) := by
@@ -143,7 +147,7 @@ theorem alpha_idchar : ∀ c : UInt8, (isalpha c = true ∨ c = c! '_') → isid
 theorem scankind_ok : ∀ (fuel : Nat) (s : S), Inv text δ s → TokOK text δ s (scankind fuel s) := by
   intro fuel
   induction fuel with
-  | zero => intro s _; rw [scankind]; trivial
+  | zero => intro s h; rw [scankind]; exact errLine_of_inv h _ (Nat.le_refl _)
   | succ fuel ih =>
     intro s h
     cases hc : s.chr with
@@ -208,7 +212,8 @@ theorem scankind_ok : ∀ (fuel : Nat) (s : S), Inv text δ s → TokOK text δ 
         · have h2 := op2_after h hne .TDIV .TDIVASSIGN
           split
           · split
-            · trivial
+            · rename_i e hcm
+              exact comment_err h2 hcm
             · rename_i s1 hcm
               have h1 := comment_after h2 hcm
               exact tokOK_mono (ih _ h1.inv) h1.sk (h.sk_of_chr hc (by decide)) (Nat.le_of_lt h1.lt)
